@@ -46,6 +46,10 @@ pub uninterp spec fn der_ts_credentials(domain: Seq<u8>, user: Seq<u8>, password
 /// first negoToken of a TSRequest / pubKeyAuth of a TSRequest (None: not a well-formed TSRequest of that shape)
 pub uninterp spec fn ts_first_nego_token(der: Seq<u8>) -> Option<Seq<u8>>;
 pub uninterp spec fn ts_pub_key_auth(der: Seq<u8>) -> Option<Seq<u8>>;
+/// the CredSSP exchange completed on a link whose trace went from w0 to w1: exactly the three client messages request / authenticate / authinfo
+pub open spec fn credssp_done(w0: Seq<u8>, w1: Seq<u8>) -> bool {
+    exists|n: Seq<u8>, c: Seq<u8>, a: Seq<u8>, b: Seq<u8>| #[trigger] (w0 + der_ts_request(n) + der_ts_authenticate(c, a) + der_ts_authinfo(b)) =~= w1
+}
 """, mod="cssp", name="cssp_der_specs"))
 DER_WHY = "real body verified in unit csspder (post-parse logic, totality); DER itself (yasna crate, src/nla/asn1.rs) is the abstract der_decode / der_encode of prelude/asn1_cssp.rs, assumed to implement the MS-CSSP structures"
 A(Stub(CSSP, "create_ts_request", mod="cssp", verified_in="csspder", why=DER_WHY, ensures=["r@ == der_ts_request(nego@)"]))
@@ -129,7 +133,9 @@ A(Fn(CSSP, "cssp_connect", mod="cssp", props=["C01", "C17", "C07", "C03", "C02"]
               (None, "monotone", "is_prefix(old(link).written(), final(link).written()) && is_suffix(final(link).rest(), old(link).rest())"),
               ("C01,C03", "three-messages-credentials-last", """r is Ok ==> exists|n: Seq<u8>, c: Seq<u8>, w1: Seq<u8>, w2: Seq<u8>|
                     #[trigger] (der_ts_request(n) + der_ts_authenticate(c, w1) + der_ts_authinfo(w2)) == (der_ts_request(n) + der_ts_authenticate(c, w1) + der_ts_authinfo(w2))
-                    && final(link).written() =~= old(link).written() + der_ts_request(n) + der_ts_authenticate(c, w1) + der_ts_authinfo(w2)""")],
+                    && final(link).written() =~= old(link).written() + der_ts_request(n) + der_ts_authenticate(c, w1) + der_ts_authinfo(w2)"""),
+              # the same fact as one predicate, so that callers (tpkt::start_nla, unit nego) can carry "Ok only after CredSSP completed" upwards
+              ("C01,C03", "credssp-done", "r is Ok ==> credssp_done(old(link).written(), final(link).written())")],
      pre="let ghost wi = link.written(); let ghost pk = link.peer_key();",
      hints=HINTS, claims=CLAIMS))
 
